@@ -154,6 +154,11 @@ def enum_descs(tier):
         enum("E4hi", 4, [tag("Y", 14), tag("Z", 15), tother("U")]),
         enum("E12hi", 12, [trange("R", 0x800, 0xfff), tother("U")]),
         enum("E8hi", 8, [tag("Y", 254), tag("Z", 255), tother("U")]),
+        # ranges by how many of their values are named: all but one, all, first and last only
+        enum("E8r1", 8, [trange("R", 10, 12, [tag("A", 10), tag("C", 12)]), tag("Z", 0)]),
+        enum("E8r1o", 8, [trange("R", 1, 3, [tag("LOW", 1), tag("HIGH", 2)]), tother("U")]),
+        enum("E4rall", 4, [trange("R", 4, 6, [tag("A", 4), tag("B", 5), tag("C", 6)]), tag("Z", 15)]),
+        enum("E8r2", 8, [trange("R", 0, 1, [tag("A", 0)]), trange("S", 254, 255, [tag("B", 255)])]),
         # closed, contiguous from 0 but stopping short of the maximum; contiguous with a hole
         enum("E3lo", 3, [tag("A", 0), tag("B", 1), tag("C", 2)]),
         enum("E4hole", 4, [trange("R", 0, 6), trange("S", 8, 15)]),
@@ -173,10 +178,12 @@ def array_descs(tier):
              ("e16", "E16", [E16]), ("e24", "E24", [E24]), ("ss", "SS", [SS]), ("ss3", "SS3", [E8, SS3]),
              ("ds", "DS", [DS]), ("dsc", "DSC", [DSC]), ("us", "US", [US]),
              ("sp", "SP", [SP]), ("dch", "DChild", [DBASE, DCHILD]), ("os", "OS", [OS])]
-    shapes = ["c0", "c1", "c3", "cnt", "siz", "unk"]
+    shapes = ["c0", "c1", "c3", "cnt", "siz", "unk", "psiz", "pcnt"]
     for (en, el, decls) in elems:
         for sh in shapes:
             if tier == "quick" and en in ("u24", "e24", "dsc", "sp", "dch", "os") and sh in ("c0", "c1"):
+                continue
+            if sh in ("psiz", "pcnt") and (en == "us" or (tier == "quick" and en in ("u24", "u64", "e16", "e24", "ss3", "dch"))):
                 continue
             if sh == "c0":
                 fs = [scalar("h", 8), array("x", el, count=0), scalar("t", 8)]
@@ -188,6 +195,10 @@ def array_descs(tier):
                 fs = [count("x", 4), reserved(4), array("x", el), scalar("t", 8)]
             elif sh == "siz":
                 fs = [size("x", 5), scalar("h", 3), array("x", el), scalar("t", 16)]
+            elif sh == "psiz":      # size field, array, padding
+                fs = [size("x", 8), array("x", el), padding(16), scalar("t", 8)]
+            elif sh == "pcnt":      # count field, array, padding
+                fs = [count("x", 8), array("x", el), padding(16), scalar("t", 8)]
             else:
                 fs = [scalar("h", 8), array("x", el)]
             if en == "us" and sh in ("c3", "c1", "cnt"):
@@ -206,6 +217,8 @@ def array_descs(tier):
                     name="pad_cnt8"))
     out.append(desc("little", [DS, packet("P", [count("x", 8), array("x", "DS"), padding(16)])], name="pad_ds_cnt"))
     out.append(desc("little", [packet("P", [array("x", 8, count=3), padding(5), scalar("t", 8)])], name="pad_static"))
+    out.append(desc("little", [packet("P", [scalar("h", 8), array("x", 16, count=3), padding(4), scalar("t", 8)])],
+                    name="pad_static_small"))     # accepted by the analyzer although the array can never fit its padding
     out.append(desc("little", [E8, packet("P", [size("x", 8), array("x", "E8"), padding(4)])], name="pad_enum_siz"))
     out.append(desc("little", [SS, packet("P", [count("x", 8), array("x", "SS"), padding(3), array("y", 16)])],
                     name="pad_then_array"))
@@ -371,6 +384,14 @@ def inherit_descs(tier):
                                packet("WriteA", [scalar("z", 8)], parent="Cmd", cons=[cons("op", 2), cons("kind", "A")]),
                                packet("AnyC", [array("w", 8)], parent="Cmd", cons=[cons("kind", "C")])],
                     name="inh_cons_tuples"))
+    # constraint lists written in another order than the fields, same-typed fields bound to different values,
+    # at one level and spread over two levels (child binds the later field, grandchild the earlier one)
+    out.append(desc("little", [packet("Parent", [scalar("a", 8), scalar("b", 8), scalar("c", 16), scalar("d", 16), payload()]),
+                               packet("Child", [scalar("x", 8), payload()], parent="Parent", cons=[cons("b", 0x34), cons("a", 5)]),
+                               packet("GrandChild", [scalar("y", 8)], parent="Child", cons=[cons("d", 2), cons("c", 1)]),
+                               packet("Child2", [payload()], parent="Parent", cons=[cons("b", 1)]),
+                               packet("GrandChild2", [scalar("z", 8)], parent="Child2", cons=[cons("a", 2)])],
+                    name="inh_cons_order"))
     # optional fields of non-native width under a sized payload / inside a sized array of structs
     out.append(desc("little", [packet("Parent", [size("_payload_", 8), payload(), scalar("trailer", 8)]),
                                packet("Child", [scalar("c", 1), reserved(7), scalar("x", 24, cond=("c", 1))], parent="Parent")],
@@ -403,13 +424,13 @@ def group_descs(tier):
                                packet("N", [scalar("h", 8), group("G")])], name="grp_matrix"))
     # (a group field may only constrain the group's own fields: E15 otherwise, so the inner bindings sit in the outer groups)
     out.append(desc("little", [E8, groupdecl("In", [typedef("k", "E8"), scalar("n", 8)]),
-                               groupdecl("OutA", [scalar("o", 8), group("In", [cons("k", "A")])]),
-                               groupdecl("OutB", [scalar("o", 8), group("In", [cons("k", "B")])]),
-                               groupdecl("OutN", [scalar("o", 8), group("In", [cons("n", 7)])]),
+                               groupdecl("OutA", [scalar("q", 8), group("In", [cons("k", "A")])]),
+                               groupdecl("OutB", [scalar("q", 8), group("In", [cons("k", "B")])]),
+                               groupdecl("OutN", [scalar("q", 8), group("In", [cons("n", 7)])]),
                                packet("A", [group("OutA")]),
-                               packet("B", [group("OutB", [cons("o", 5)])]),
-                               packet("C", [group("OutA", [cons("o", 5)]), scalar("t", 8)]),
-                               struct("S", [group("OutN", [cons("o", 5)])])], name="grp_matrix_nested"))
+                               packet("B", [group("OutB", [cons("q", 5)])]),
+                               packet("C", [group("OutA", [cons("q", 5)]), scalar("t", 8)]),
+                               struct("S", [group("OutN", [cons("q", 5)])])], name="grp_matrix_nested"))
     return out
 
 
@@ -468,6 +489,11 @@ def c10_descs(tier):
     D("x_optional_struct_cond", [SS, packet("P", [scalar("c", 1), reserved(7), typedef("s", "SS", cond=("c", 0)), payload()])])
     D("x_recursive_array", [struct("T", [scalar("k", 8), count("sub", 8), array("sub", "T")]), packet("P", [typedef("t", "T")])])
     D("x_keyword_ids", [packet("P", [scalar("type", 8), scalar("match", 8), scalar("self_", 8)])])
+    # identifiers that are keywords or generated local names of a target language
+    D("x_decl_named_if", [packet("if", [scalar("a", 8)])])
+    D("x_field_named_if", [packet("P", [scalar("if", 8)])])
+    D("x_tag_named_if", [enum("E", 8, [tag("if", 1), tag("B", 2)]), packet("P", [typedef("e", "E")])])
+    D("x_field_named_o", [packet("P", [scalar("o", 8), scalar("other", 8)])])
     D("x_fixed_w64", [packet("P", [fixed(0xffffffffffffffff, 64)])])
     D("x_tag_max", [enum("E", 64, [tag("A", 0xffffffffffffffff)]), packet("P", [fixedenum("A", "E")])])
     D("x_child_no_payload_parent", [packet("A", [scalar("v", 8)]), packet("B", [], parent="A", cons=[cons("v", 1)]),
